@@ -71,6 +71,8 @@ def mk_targets(spec):
     form, v = spec["form"], spec["v"]
     if form == "int":
         return int(v)
+    if form == "npint":             # a single vertex id as mouette hands them out
+        return np.int64(v)
     if form == "list":
         return [int(x) for x in v]
     if form == "set":
@@ -246,7 +248,7 @@ def run_case(case):
             obs.append(canon_exc(ex))
         finally:
             signal.alarm(0)
-        amb_after.append(ambient_state())
+            amb_after.append(ambient_state())      # one entry per query, whatever way the query ended
     return {"pre_errors": pre_errors, "ambient_after": amb_after, "type": type(mesh).__name__, "n": n, "edges": edges, "adj": adj, "border": border, "coords": coords,
             "wnum": wnum, "obs": obs, "queries": queries}
 
